@@ -246,7 +246,7 @@ func vC02Decl(t vC02Type, name string) string {
 		if t.decl[i] == '@' {
 			out += name
 		} else {
-			out += string(t.decl[i])
+			out += t.decl[i : i+1]
 		}
 	}
 	return out
@@ -417,7 +417,26 @@ func VerifC02Loops() {
 	t1, t2 := vC02Pick("t1"), vC02Pick("t2")
 	src := vC02Prelude + vC02Decl(t1, "a") + vC02Decl(t2, "b")
 	body := "\n\tDie Variable q ist a.\n"
-	switch rt.Choose("form", 9) {
+	switch rt.Choose("form", 17) {
+	case 9: // bounds, steps and counts whose evaluation needs more than one basic block
+		src += "Für jede Zahl i von 1 bis (a an der Stelle 1), mache:" + body
+	case 10:
+		src += "Für jede Zahl i von (der Betrag von a) bis (der Betrag von b), mache:" + body
+	case 11:
+		src += "Für jede Zahl i von 1 bis (a, falls wahr, ansonsten b) mit Schrittgröße (b, falls wahr, ansonsten a), mache:" + body
+	case 12:
+		src += "Für jede Zahl i von (b als Zahl) bis (a als Zahl), mache:" + body
+	case 13:
+		src += "Solange (a an der Stelle 1) kleiner als (der Betrag von b) ist, mache:" + body + "\tVerlasse die Schleife.\n"
+	case 14:
+		src += "Wiederhole:" + body + "(der Betrag von a) Mal.\n"
+	case 15:
+		if t1.forEl == "" {
+			return
+		}
+		src += t1.forEl + " (a verkettet mit a), mache:\n\tDie Variable q ist e.\n\tWenn wahr, fahre mit der Schleife fort.\n"
+	case 16:
+		src += "Wenn (a an der Stelle 1) gleich (b an der Stelle 1) ist, dann:" + body + "Sonst:" + body
 	case 0:
 		src += "Für jede Zahl i von a bis b, mache:" + body
 	case 1:
@@ -447,7 +466,12 @@ func VerifC02Loops() {
 func VerifC02Literals() {
 	t1, t2 := vC02Pick("t1"), vC02Pick("t2")
 	src := vC02Prelude + vC02Decl(t1, "a") + vC02Decl(t2, "b")
-	switch rt.Choose("form", 6) {
+	switch rt.Choose("form", 8) {
+	case 6: // fields passed explicitly although their defaults have another numeric type
+		src += "Wir nennen die Kombination aus\n\tder Kommazahl m mit Standardwert 1,\n\tdem Byte y mit Standardwert 5,\neinen Wert, und erstellen sie so:\n\t\"ein Wert aus <m> sowie <y>\"\n\nDie Variable r ist ein Wert aus a sowie b.\n" +
+			"Wir nennen die Kombination aus\n\tdem Byte n2 mit Standardwert 2,\n\tder Kommazahl k2 mit Standardwert 3,\neine Angabe, und erstellen sie so:\n\t\"eine Angabe aus <n2> sowie <k2>\"\n\nDie Variable r2 ist eine Angabe aus b sowie a.\n"
+	case 7:
+		src += "Wir nennen die Kombination aus\n\tder Kommazahl m mit Standardwert 1,\n\tder Zahl n mit Standardwert 2,5,\n\tdem Text t mit Standardwert \"t\",\neinen Wert, und erstellen sie so:\n\t\"ein Wert mit m gleich <m>\" oder\n\t\"ein Wert mit n gleich <n> und t gleich <t>\"\n\nDie Variable r ist ein Wert mit n gleich a und t gleich b.\n"
 	case 0:
 		src += "Die Variable r ist ein Punkt mit x gleich a.\n"
 	case 1:
@@ -499,6 +523,7 @@ var vC02LibDecls = []string{
 	"Wir nennen die öffentliche Kombination aus\n\tder öffentlichen Zahl wert mit Standardwert (hilf 2),\n\tdem öffentlichen Text name mit Standardwert \"n\",\neine Sache, und erstellen sie so:\n\t\"eine Sache\" oder\n\t\"eine Sache mit wert gleich <wert>\"\n\n",
 	"Die öffentliche generische Funktion gen mit dem Parameter a vom Typ T, gibt ein T zurück, macht:\n\tDie Zahl h ist (hilf 1).\n\tGib a zurück.\nUnd kann so benutzt werden:\n\t\"gen <a>\"\n\n",
 	"Wir definieren eine Strecke öffentlich als eine Zahl.\n\n",
+	"Wir nennen die generische öffentliche Kombination aus\n\tdem öffentlichen T erstes,\n\tdem öffentlichen T zweites,\nein Paar, und erstellen sie so:\n\t\"Paar(<erstes>, <zweites>)\"\n\n",
 }
 
 var vC02LibUses = []string{
@@ -506,13 +531,18 @@ var vC02LibUses = []string{
 	"Die Variable r ist eine Sache.\n", "Die Variable r ist eine Sache mit wert gleich 4.\n", "Die Sache s ist eine Sache.\nDie Variable r ist wert von s.\n",
 	"Die Variable r ist (gen 1).\n", "Die Variable r ist (gen \"a\").\n", "Die Strecke s ist 3 als Strecke.\nDie Variable r ist s.\n",
 	"Die Sache Liste sl ist eine leere Sache Liste.\nDie Variable r ist sl.\n", "Die Sache s ist eine Sache.\nDie Variable r ist (gen s).\n",
+	// the generic Kombination of the library instantiated with inbuilt types, with a Kombination of
+	// the library, and with a Kombination and a type definition only the importing module knows
+	"Das Sache-Paar p ist Paar((eine Sache), (eine Sache)).\nDie Variable r ist wert von erstes von p.\n",
+	"Wir nennen die Kombination aus\n\tder Zahl pa mit Standardwert 7,\n\tdem Text pt mit Standardwert \"h\",\neinen Ort, und erstellen sie so:\n\t\"ein Ort\"\n\nDas Ort-Paar p ist Paar((ein Ort), (ein Ort)).\nSpeichere 8 in pa von zweites von p.\nDie Variable r ist pa von erstes von p.\n",
+	"Wir definieren eine Elle als eine Zahl.\n\nDas Elle-Paar p ist Paar((1 als Elle), (2 als Elle)).\nDie Variable r ist erstes von p.\n",
 }
 
 func VerifC02Modules() {
 	lib := "Die Funktion hilf mit dem Parameter a vom Typ Zahl, gibt eine Zahl zurück, macht:\n\tGib a plus 1 zurück.\nUnd kann so benutzt werden:\n\t\"hilf <a>\"\n\n"
 	withGeneric := rt.Choose("generic", 2) == 1
 	for _, d := range vC02LibDecls {
-		if !withGeneric && vC02Has(d, "generische") {
+		if !withGeneric && vC02Has(d, "generische Funktion") {
 			continue // a module without generic functions may be lowered differently
 		}
 		lib += d
@@ -536,7 +566,7 @@ func VerifC02Modules() {
 func indentLines(s string) string {
 	out := ""
 	for i := 0; i < len(s); i++ {
-		out += string(s[i])
+		out += s[i : i+1]
 		if s[i] == '\n' && i+1 < len(s) {
 			out += "\t"
 		}
@@ -611,3 +641,56 @@ func vC02Dbg(msg string) string {
 }
 
 var vC02DebugOn = false
+
+// user-defined operators, generic functions and Kombination/list parameters and results
+var vC02FuncForms = []string{
+	// 0: unary operator overloaded for T1 returning T2, used on a value of T1
+	"Die Funktion op1 mit dem Parameter p vom Typ @1, gibt @r2 zurück, macht:\n\tGib b zurück.\nUnd überlädt den \"Betrag\" Operator.\n\nDie Variable r ist (der Betrag von a).\n",
+	// 1: binary operator overloaded for (T1, T2)
+	"Die Funktion op2 mit den Parametern p und q vom Typ @1 und @2, gibt @r1 zurück, macht:\n\tGib p zurück.\nUnd überlädt den \"plus\" Operator.\n\nDie Variable r ist (a plus b).\nDie Variable r2 ist (a plus b plus b).\n",
+	// 2: generic function instantiated with T1 and T2, result stored and discarded
+	"Die generische Funktion gleich_oder mit den Parametern p und q vom Typ T und T, gibt ein T zurück, macht:\n\tWenn p gleich q ist, gib p zurück.\n\tGib q zurück.\nUnd kann so benutzt werden:\n\t\"<p> oder sonst <q>\"\n\nDie Variable r ist (a oder sonst a).\nDie Variable r2 ist (b oder sonst b).\nb oder sonst b.\n",
+	// 3: generic function with a list parameter
+	"Die generische Funktion erstes mit dem Parameter l vom Typ T Liste, gibt ein T zurück, macht:\n\tGib l an der Stelle 1 zurück.\nUnd kann so benutzt werden:\n\t\"das erste von <l>\"\n\nDie Variable r ist (das erste von a).\n",
+	// 4: generic function with a Referenz parameter, called with a variable and with an element
+	"Die generische Funktion setze mit den Parametern p und q vom Typ T Referenz und T, gibt nichts zurück, macht:\n\tSpeichere q in p.\nUnd kann so benutzt werden:\n\t\"setze <p> auf <q>\"\n\nsetze a auf b.\nsetze a auf a.\n",
+	// 5: a function returning its parameter from a nested block, called as argument of itself
+	"Die Funktion id mit dem Parameter p vom Typ @1, gibt @r1 zurück, macht:\n\tWenn wahr, dann:\n\t\tWenn wahr, gib p zurück.\n\tGib p zurück.\nUnd kann so benutzt werden:\n\t\"id <p>\"\n\nDie Variable r ist (id (id a)).\nid (id a).\n",
+	// 6: forward declaration, use, later definition
+	"Die Funktion nachher mit dem Parameter p vom Typ @1, gibt @r2 zurück,\nwird später definiert\nund kann so benutzt werden:\n\t\"nachher <p>\"\n\nDie Variable r ist (nachher a).\n\nDie Funktion nachher macht:\n\tGib b zurück.\n",
+	// 7: comparison operators overloaded, used in a condition
+	"Die Funktion op3 mit den Parametern p und q vom Typ @1 und @2, gibt einen Wahrheitswert zurück, macht:\n\tGib wahr zurück.\nUnd überlädt den \"gleich\" Operator.\n\nWenn a gleich b ist, dann:\n\tDie Variable r ist a.\nDer Wahrheitswert w ist a ungleich b ist.\n",
+}
+
+func VerifC02Functions()   { verifC02Functions(0) }
+func VerifC02FunctionsO2() { verifC02Functions(2) }
+
+func verifC02Functions(level uint) {
+	t1, t2 := vC02Pick("t1"), vC02Pick("t2")
+	form := vC02FuncForms[rt.Choose("form", len(vC02FuncForms))]
+	body := ""
+	for i := 0; i < len(form); i++ {
+		if form[i] == '@' && i+1 < len(form) {
+			switch {
+			case form[i+1] == '1':
+				body += t1.key
+				i++
+				continue
+			case form[i+1] == '2':
+				body += t2.key
+				i++
+				continue
+			case form[i+1] == 'r' && i+2 < len(form) && form[i+2] == '1':
+				body += t1.ret
+				i += 2
+				continue
+			case form[i+1] == 'r' && i+2 < len(form) && form[i+2] == '2':
+				body += t2.ret
+				i += 2
+				continue
+			}
+		}
+		body += form[i : i+1]
+	}
+	vC02Source(vC02Prelude+vC02Decl(t1, "a")+vC02Decl(t2, "b")+body, level)
+}
